@@ -108,14 +108,19 @@ fn difficulties(dst: u8, n: u32, rich: bool) -> Vec<(String, Difficulty)> {
         Setting::mods(ModSpec::Classic(None)),
         Setting { rate: Some(1.2), od: Some((9.1, false)), ..Setting::nm() },
     ];
+    if dst == 3 {
+        base.push(Setting::mods(ModSpec::HoldOff));
+        base.push(Setting::mods(ModSpec::Invert));
+        base.push(Setting::mods(ModSpec::HoIn(None)));
+        base.push(Setting::mods(ModSpec::Random(Some(21.0))));
+    }
+    if dst == 1 {
+        base.push(Setting::mods(ModSpec::Random(Some(21.0))));
+    }
     if rich {
         base.push(Setting::bits(settings::EZ | settings::HT | settings::FL));
         base.push(Setting { lazer: Some(false), ..Setting::mods(ModSpec::Classic(None)) });
         base.push(Setting { ar: Some((10.0, true)), cs: Some((6.5, false)), hp: Some((3.0, false)), ..Setting::bits(settings::RX) });
-        if dst == 3 {
-            base.push(Setting::mods(ModSpec::HoldOff));
-            base.push(Setting::mods(ModSpec::Invert));
-        }
     }
     let mut out = Vec::new();
     for s in base {
